@@ -13,6 +13,7 @@ import (
 	"encoding/binary"
 	"encoding/json"
 	"fmt"
+	"math/rand"
 	"reflect"
 	"strings"
 
@@ -293,6 +294,7 @@ type decObs struct {
 	Typed    map[string]bool
 	Generic  bool
 	Panicked string
+	Again    string // non-empty: decoding the same text again, after the caller edited the first result, gave other claims
 }
 
 func dynKind(c jwt.Claims) string {
@@ -336,6 +338,127 @@ func reportedVersion(c jwt.Claims) int {
 	return -1
 }
 
+// ---------- what a decoder returns is a function of the token text alone ----------
+
+// poison tokens: correctly signed tokens of every kind and layout with rich content whose payload ends in a member of
+// the wrong JSON type, so that a decoder refuses them half-way, after it has read everything else
+var poisonTokens []string
+var poisonAt int
+
+func buildPoison() {
+	kr := newKeyring()
+	add := func(tok string, signer *signer, layout string) {
+		seg := strings.Split(tok, ".")
+		if len(seg) != 3 {
+			return
+		}
+		raw, err := b64.DecodeString(seg[1])
+		if err != nil || len(raw) < 2 {
+			return
+		}
+		hdr, _ := b64.DecodeString(seg[0])
+		for _, tail := range []string{`,"exp":"never"}`, `,"nats":7}`, `,"type":5}`, `,"nats":{"version":"x"}}`, `,"iat":[]}`} {
+			poisonTokens = append(poisonTokens, forge(string(hdr), string(raw[:len(raw)-1])+tail, layout, signer).Token)
+		}
+	}
+	g := &valGen{rng: rand.New(rand.NewSource(99)), kr: kr, fill: 95, scopeByValue: true}
+	for _, kind := range kindNames {
+		for i := 0; i < 2; i++ {
+			cl, s := g.newClaims(kind)
+			if tok, err := cl.Encode(s.kp); err == nil {
+				add(tok, s, "v2")
+			}
+		}
+	}
+	for _, kind := range []string{"operator", "account", "user", "activation", "generic"} {
+		for i := 0; i < 2; i++ {
+			cl, s := v1Random(g, kind)
+			if tok, err := cl.Encode(s.kp); err == nil {
+				add(tok, s, "v1")
+			}
+		}
+	}
+}
+
+// poisonStep hands the next poison token to every decoder (results ignored)
+func poisonStep() {
+	if poisonTokens == nil {
+		buildPoison()
+	}
+	if len(poisonTokens) == 0 {
+		return
+	}
+	defer func() { recover() }()
+	tok := poisonTokens[poisonAt%len(poisonTokens)]
+	poisonAt++
+	jwt.Decode(tok)
+	jwt.DecodeGeneric(tok)
+	jwt.DecodeActivationClaims(tok)
+	jwt.DecodeUserClaims(tok)
+	jwt.DecodeAccountClaims(tok)
+	jwt.DecodeOperatorClaims(tok)
+}
+
+// scribble overwrites what a caller may overwrite in claims it was handed: text fields, numbers, lists
+func scribble(c jwt.Claims) {
+	defer func() { recover() }()
+	var walk func(v reflect.Value, depth int)
+	walk = func(v reflect.Value, depth int) {
+		if depth > 3 || !v.IsValid() {
+			return
+		}
+		switch v.Kind() {
+		case reflect.Ptr:
+			if !v.IsNil() {
+				walk(v.Elem(), depth+1)
+			}
+		case reflect.Struct:
+			for i := 0; i < v.NumField(); i++ {
+				if v.Type().Field(i).PkgPath == "" {
+					walk(v.Field(i), depth+1)
+				}
+			}
+		case reflect.String:
+			if v.CanSet() {
+				v.SetString("scribbled")
+			}
+		case reflect.Int64, reflect.Int:
+			if v.CanSet() {
+				v.SetInt(7)
+			}
+		case reflect.Slice:
+			if v.CanSet() && v.Type().Elem().Kind() == reflect.String {
+				v.Set(reflect.Append(v, reflect.ValueOf("scribbled").Convert(v.Type().Elem())))
+			}
+		}
+	}
+	walk(reflect.ValueOf(c), 0)
+}
+
+// decodeAgain: decode, let the caller edit the result, decode the same text again - the second result must be what
+// the first was before the edit, and another object
+func decodeAgain(name string, dec func() (jwt.Claims, error)) string {
+	defer func() { recover() }()
+	c1, err := dec()
+	if err != nil || c1 == nil || reflect.ValueOf(c1).IsNil() {
+		return ""
+	}
+	j1, _ := json.Marshal(c1)
+	scribble(c1)
+	c2, err := dec()
+	if err != nil || c2 == nil || reflect.ValueOf(c2).IsNil() {
+		return name + ": the same text is refused the second time"
+	}
+	if reflect.ValueOf(c1).Pointer() == reflect.ValueOf(c2).Pointer() {
+		return name + ": the second decode returns the very object the first returned"
+	}
+	j2, _ := json.Marshal(c2)
+	if string(j1) != string(j2) {
+		return name + ": after the caller edited the first result, decoding the same text gives " + string(j2)[:min(len(j2), 200)] + " instead of " + string(j1)[:min(len(j1), 200)]
+	}
+	return ""
+}
+
 func observeDecode(tok string, iss string) (o decObs) {
 	o.Typed = map[string]bool{}
 	defer func() {
@@ -343,12 +466,30 @@ func observeDecode(tok string, iss string) (o decObs) {
 			o.Panicked = fmt.Sprint(r)
 		}
 	}()
+	poisonStep()
 	c, err := jwt.Decode(tok)
 	if err == nil && c != nil {
 		o.Accepted = true
 		o.Kind = dynKind(c)
 		o.Reported = reportedVersion(c)
 		o.IssOK = c.Claims().Issuer == iss
+		for _, d := range []struct {
+			name string
+			dec  func() (jwt.Claims, error)
+		}{
+			{"Decode", func() (jwt.Claims, error) { return jwt.Decode(tok) }},
+			{"DecodeGeneric", func() (jwt.Claims, error) { return jwt.DecodeGeneric(tok) }},
+			{"DecodeOperatorClaims", func() (jwt.Claims, error) { return jwt.DecodeOperatorClaims(tok) }},
+			{"DecodeAccountClaims", func() (jwt.Claims, error) { return jwt.DecodeAccountClaims(tok) }},
+			{"DecodeUserClaims", func() (jwt.Claims, error) { return jwt.DecodeUserClaims(tok) }},
+			{"DecodeActivationClaims", func() (jwt.Claims, error) { return jwt.DecodeActivationClaims(tok) }},
+			{"DecodeAuthorizationRequestClaims", func() (jwt.Claims, error) { return jwt.DecodeAuthorizationRequestClaims(tok) }},
+			{"DecodeAuthorizationResponseClaims", func() (jwt.Claims, error) { return jwt.DecodeAuthorizationResponseClaims(tok) }},
+		} {
+			if msg := decodeAgain(d.name, d.dec); msg != "" && o.Again == "" {
+				o.Again = msg
+			}
+		}
 	}
 	if x, err := jwt.DecodeOperatorClaims(tok); err == nil && x != nil {
 		o.Typed["operator"] = true
@@ -490,6 +631,9 @@ func checkAccepted(c *Ctx, ft forged, f facts, o decObs) {
 	if o.Panicked != "" {
 		c.violation("decoder panicked: "+o.Panicked, inp)
 		return
+	}
+	if o.Again != "" {
+		c.violation("what a decoder returns is not a function of the token text: "+o.Again, inp)
 	}
 	hdrOK := f.HdrJSON && asciiUpper(f.Typ) == "JWT" && (asciiLower(f.Alg) == "ed25519" || asciiLower(f.Alg) == "ed25519-nkey")
 	segsOK := f.NChunks == 3 && f.HdrB64 && f.PayB64 && f.SigB64
